@@ -163,4 +163,27 @@ def journalObjectsExpected : List (String × String × String) := [
   ("fstxn.GetInodeLocked", "ReadBuf", "common.INODESZ * 8")  -- the inode's slot: the inode's lock
 ]
 
+/-! ### the simple server: the per-inode lock is held across the body and its waiting commit
+
+`Model/Reveal` (M11): whoever obtains a lock next must read only what a crash can no longer undo.
+In simple/ops.go a handler takes the inode's lock, calls its `_internal` body — which reads, writes
+and commits with `CommitWait(true)` — and gives the lock back afterwards. -/
+
+/-- a handler: `Acquire` when not held, `Release` when held; bodies and commits only while held;
+    every commit waits; the lock is not kept -/
+def simpleWalk : Bool → List (Nat × String) → Bool
+  | held, [] => !held
+  | held, (0, _) :: r => !held && simpleWalk true r
+  | held, (1, _) :: r => held && simpleWalk false r
+  | held, (2, _) :: r => held && simpleWalk held r
+  | held, (3, a) :: r => held && a = "true" && simpleWalk held r
+  | _, _ :: _ => false
+
+/-- a body (entered with the lock held): it only commits, waiting, at least once -/
+def simpleBody (toks : List (Nat × String)) : Bool :=
+  !toks.isEmpty && toks.all fun t => t.1 = 3 && t.2 = "true"
+
+def simpleCheck (f : String × Bool × List (Nat × String)) : Bool :=
+  if f.2.1 then simpleBody f.2.2 else simpleWalk false f.2.2
+
 end GoNfsd.Model.Skeleton
